@@ -367,8 +367,15 @@ func liveAcceptTrace(start uint64, tr []liveStreamEvent) string {
 		switch e.Name {
 		case "append.sent":
 			prev, n := e.A, e.B
+			// (the hook fires before the bytes are written: a write that fails does not advance
+			// nextIndex in the real code, so a request without entries below next-1 is the probe
+			// of a new connection after such a failure)
 			if n > 0 && !pipe {
 				return fmt.Sprintf("event %d: entries sent outside the pipeline (prev %d n %d)", i, prev, n)
+			}
+			if n == 0 && prev+1 < next {
+				pipe = false
+				outstanding = nil
 			}
 			if !pipe {
 				// probe: the real code may lower next between probes; it never probes above next-1
@@ -392,7 +399,7 @@ func liveAcceptTrace(start uint64, tr []liveStreamEvent) string {
 					match = reqLast
 				}
 				if match >= next {
-					return fmt.Sprintf("event %d: match %d not below next %d", i, match, next)
+					return fmt.Sprintf("ACKED-MORE-THAN-SENT event %d: a success response was booked as covering index %d although only entries below %d have been sent on this stream", i, match, next)
 				}
 				if !pipe && match+1 == next {
 					pipe = true
@@ -491,6 +498,26 @@ func liveScript(name string) (res liveResult) {
 		if err := c.start(ldr); err != nil {
 			return fail("restart: %v", err)
 		}
+	case "backlog":
+		// a follower is down while well over maxAppendEntries (64) entries are committed,
+		// then comes back: the pipeline ships the backlog in several chunks
+		var victim uint64
+		ldr, _ := c.leader(5 * time.Second)
+		for _, id := range up {
+			if id != ldr {
+				victim = id
+				break
+			}
+		}
+		if err := c.stop(victim); err != nil {
+			return fail("%v", err)
+		}
+		if err := put(150); err != nil {
+			return fail("update: %v", err)
+		}
+		if err := c.start(victim); err != nil {
+			return fail("restart: %v", err)
+		}
 	case "snap2":
 		// two nodes are down while entries are committed, snapshotted and compacted;
 		// they then come up together: two snapshot installations at once
@@ -556,7 +583,11 @@ func liveScript(name string) (res liveResult) {
 		res.Streams++
 		res.Events += len(evs)
 		if why := liveAcceptTrace(r.ldrStartIndex, evs); why != "" {
-			res.Rejected = append(res.Rejected, fmt.Sprintf("stream to node %d: %s", r.status.id, why))
+			head := evs
+			if len(head) > 14 {
+				head = head[:14]
+			}
+			res.Rejected = append(res.Rejected, fmt.Sprintf("stream to node %d (start %d): %s; first events %v", r.status.id, r.ldrStartIndex, why, head))
 		}
 	}
 	tr.mu.Unlock()
@@ -567,7 +598,7 @@ func liveScript(name string) (res liveResult) {
 	return res
 }
 
-var liveScripts = []string{"basic", "restart", "snap2"}
+var liveScripts = []string{"basic", "restart", "backlog", "snap2"}
 
 // liveMain: `vraft live [--rounds n]` runs all scripts and prints one JSON line per run.
 func liveMain(args []string) int {
@@ -693,6 +724,11 @@ func liveSupplement(run *vkRun, tier string) {
 		run.Violation("live:script-failed:"+strings.SplitN(f, ":", 2)[0], "free-running script failed: "+f, map[string]interface{}{"cmd": "vraft live"})
 	}
 	for _, r := range normal.Rejected {
+		if strings.Contains(r, "ACKED-MORE-THAN-SENT") {
+			// not a modelling question: the real replication goroutine credited a follower with entries it never sent
+			run.Violation("live:match-index-beyond-sent", "free-running replication stream: "+r+" (the leader would count, commit and acknowledge entries only it stores)", map[string]interface{}{"cmd": "vraft live --script backlog"})
+			continue
+		}
 		run.Cov["driver_conformance_note"] = "a recorded stream of the real replication goroutine is not accepted by the driver skeleton: the skeleton (harness), not the library, needs attention: " + r
 	}
 	// pipeline stop race (the one piece of replication control flow the driver
